@@ -26,7 +26,10 @@ package types
 //@ smt (declare-fun txAllowed (Int Int Int) Bool)
 //@ smt (declare-fun txAllowedNow (Int) Bool)
 
-//@ pure func (*Transaction).Hash
+// the hash is a function of the transaction's content: equal results in an unchanged heap
+//@ trusted func (*Transaction).Hash
+//@   frame nothing
+//@   opt functional=yes
 //@ pure func (*Transaction).From
 //@ pure func (*Transaction).GetRealToAddr
 //@ pure func github.com/33cn/chain33/common.ToHex
@@ -142,3 +145,43 @@ package types
 //@   assert@call CheckSign: arg0 == ret(Encode) && arg2 == tx.Signature && arg3 == blockHeight && arg1 == bytes(tx.Execer)
 //@   ensures tx.Signature == nil ==> !result
 //@   ensures result ==> called(CheckSign) && ret(CheckSign)
+
+// ---- C17: a transaction group is accepted only when it is well formed --------------------------------
+// reqFee(tx, rate): the fee GetRealFee demands of tx at the given rate (abstract).
+// feeSum(a, o, k, rate) = reqFee(a[o]) + ... + reqFee(a[o+k-1]).
+//@ smt (declare-fun reqFee (Int Int) Int)
+//@ smt (declare-fun feeSum ((Array Int Int) Int Int Int) Int)
+//@ smt (assert (forall ((a (Array Int Int)) (o Int) (m Int)) (! (= (feeSum a o 0 m) 0) :pattern ((feeSum a o 0 m)))))
+//@ smt (assert (forall ((a (Array Int Int)) (o Int) (k Int) (m Int)) (! (=> (> k 0) (= (feeSum a o k m) (+ (feeSum a o (- k 1) m) (reqFee (select a (+ o (- k 1))) m)))) :pattern ((feeSum a o k m)))))
+//@ trusted func (*Transaction).GetRealFee
+//@   frame nothing
+//@   ensures result1 == nil ==> result0 == reqFee(tx, minFee)
+//@ pure func (*Transaction).check
+//@ pure func GetParaExecTitleName
+//@ pure func IsParaExecName
+
+//@ func (*Transactions).CheckWithFork [C17]
+//@   opt safety=assumed overflow=assumed
+//@   requires txgroup != nil && len(txgroup.Txs) < 2147483648
+//@   frame allocates, map:string|bool
+//@   ensures result == nil ==> len(txgroup.Txs) >= 2 && forall i :: 0 <= i && i < len(txgroup.Txs) ==> txgroup.Txs[i] != nil
+//@   ensures result == nil ==> forall i :: 1 <= i && i < len(txgroup.Txs) ==> txgroup.Txs[i].Fee == 0
+//@   ensures result == nil ==> txgroup.Txs[0].Fee >= feeSum(sdata(txgroup.Txs), soff(txgroup.Txs), len(txgroup.Txs), minfee)
+//@   ensures result == nil && maxFee > 0 && checkFork ==> txgroup.Txs[0].Fee <= maxFee
+//@   ensures result == nil ==> forall i :: 0 <= i && i < len(txgroup.Txs) ==> bytes(txgroup.Txs[i].Header) == bytes(txgroup.Txs[0].Header) && txgroup.Txs[i].GroupCount == len(txgroup.Txs) && txgroup.Txs[i].GroupCount <= MaxTxGroupSize
+//@   ensures result == nil ==> isnil(txgroup.Txs[len(txgroup.Txs) - 1].Next)
+//@   ensures result == nil ==> bytes(txgroup.Txs[0].Header) == fcall(Hash, txgroup.Txs[0])
+//@   ensures result == nil ==> forall i :: 0 <= i && i < len(txgroup.Txs) - 1 ==> bytes(txgroup.Txs[i].Next) == fcall(Hash, txgroup.Txs[i + 1])
+//@   assert@call check: arg2 == height && arg3 == 0 && arg4 == maxFee
+//@   assert@call GetRealFee: arg0 == txgroup.Txs[i] && arg1 == minfee
+//@   loop 0 invariant 0 <= i && i <= len(txs) && txs == txgroup.Txs && !isnil(para)
+//@   loop 0 invariant forall j :: 0 <= j && j < i ==> txs[j] != nil
+//@   loop 1 invariant true
+//@   loop 2 invariant 1 <= i && forall j :: 1 <= j && j < i ==> txs[j].Fee == 0
+//@   loop 3 invariant 0 <= i && i <= len(txs) && totalfee == feeSum(sdata(txs), soff(txs), i, minfee)
+//@   loop 4 invariant 0 <= i && i <= len(txs)
+//@   loop 4 invariant forall j :: 0 <= j && j < i ==> txs[j].GroupCount == len(txs) && txs[j].GroupCount <= MaxTxGroupSize
+//@   loop 4 invariant forall j :: 0 <= j && j < i ==> bytes(txs[j].Header) == bytes(txs[0].Header)
+//@   loop 4 invariant i > 0 && i == len(txs) ==> isnil(txs[i - 1].Next)
+//@   loop 4 invariant i > 0 ==> bytes(txs[0].Header) == fcall(Hash, txs[0])
+//@   loop 4 invariant forall j :: 0 <= j && j < i && j < len(txs) - 1 ==> bytes(txs[j].Next) == fcall(Hash, txs[j + 1])
